@@ -308,7 +308,7 @@ def _path_job_inner(prefix):
     except Unsupported as e:
         import os as _os
 
-        out["unsupported"].append(str(e) + ("\n" + traceback.format_exc(limit=-6) if _os.environ.get("PYVC_TRACE") else ""))
+        out["unsupported"].append(str(e) + ("\n" + traceback.format_exc(limit=-int(_os.environ.get("PYVC_TRACE_DEPTH", "6"))) if _os.environ.get("PYVC_TRACE") else ""))
         return out
     except RecursionError:
         out["unsupported"].append("recursion limit in symbolic execution")
